@@ -130,7 +130,7 @@ func ruleC25(c *Ctx, r *Report) {
 	}
 }
 
-func sameValue(a, b ssa.Value) bool { return stripValue(a) == stripValue(b) }
+func sameValue(a, b ssa.Value) bool { return sameVal(a, b) }
 
 func isLenOfField(v ssa.Value, f *types.Var) bool {
 	call, ok := v.(*ssa.Call)
